@@ -242,6 +242,9 @@ func shippedMain(args []string) error {
 	c.Dir = mod
 	c.Env = goEnv(*gocache)
 	if outb, err := c.CombinedOutput(); err != nil {
+		if systemFailure(outb) {
+			return fmt.Errorf("toolchain failure while compiling the shipped grammars (not an observation):\n%s", trunc(string(outb), 2000))
+		}
 		// a generated parser that does not compile is an observation: find the packages
 		for i := range gens {
 			on := gens[i].Opt
